@@ -195,3 +195,19 @@ proof fn step_open(g: Streams, n: Lic) -> (h: Streams)
 {
     Streams { s: n, max_streams_seen: g.max_streams_seen }
 }
+
+// on_close_stream (contract: lic_on_close_counts); frees one slot of the local concurrency limit only
+proof fn step_close(g: Streams, n: Lic) -> (h: Streams)
+    requires inv_streams(g), g.s.closed < g.s.opened, lic_on_close_counts(g.s, n), n.local_max_open == g.s.local_max_open,
+    ensures inv_streams(h), h.s.opened == g.s.opened, h.max_streams_seen == g.max_streams_seen,
+{
+    Streams { s: n, max_streams_seen: g.max_streams_seen }
+}
+
+// available_stream_capacity() (contract: result == lic_capacity) is positive exactly when poll_open_stream may
+// return Ready, and opening that many streams stays within the largest MAX_STREAMS received
+proof fn lemma_capacity(g: Streams)
+    requires inv_streams(g),
+    ensures (lic_capacity(g.s) >= 1) == lic_open_allowed(g.s), g.s.opened + lic_capacity(g.s) <= g.max_streams_seen,
+{
+}
